@@ -350,9 +350,9 @@ class SVGLexicalParser:
             if cmd is None:
                 return
             elif cmd == "z" or cmd == "Z":
+                self.parser.closed(relative=cmd.islower())
                 if self._more():
                     raise ValueError
-                self.parser.closed(relative=cmd.islower())
                 self.inline_close = None
                 continue
             elif cmd == "m":
@@ -414,25 +414,35 @@ class SVGLexicalParser:
             elif cmd == "h":
                 while True:
                     value = self._number()
+                    if value is None:
+                        raise ValueError
                     self.parser.horizontal(value, relative=True)
                     if not self._more():
                         break
             elif cmd == "H":
                 while True:
                     value = self._number()
+                    if value is None:
+                        raise ValueError
                     self.parser.horizontal(value, relative=False)
                     if not self._more():
                         break
             elif cmd == "v":
                 while True:
                     value = self._number()
+                    if value is None:
+                        raise ValueError
                     self.parser.vertical(value, relative=True)
                     if not self._more():
                         break
             elif cmd == "V":
-                while self._more():
+                while True:
                     value = self._number()
+                    if value is None:
+                        raise ValueError
                     self.parser.vertical(value, relative=False)
+                    if not self._more():
+                        break
             elif cmd == "c":
                 while True:
                     coord1, coord2, coord3 = (
@@ -539,7 +549,9 @@ class SVGLexicalParser:
                         self._flag(),
                         self._rcoord(),
                     )
-                    if sweep is None:
+                    if rx is None or ry is None or rotation is None:
+                        raise ValueError
+                    if arc is None or sweep is None:
                         raise ValueError
                     if coord is None:
                         coord = self.inline_close
@@ -556,6 +568,10 @@ class SVGLexicalParser:
                         self._flag(),
                         self._coord(),
                     )
+                    if rx is None or ry is None or rotation is None:
+                        raise ValueError
+                    if arc is None or sweep is None:
+                        raise ValueError
                     if coord is None:
                         coord = self.inline_close
                         if coord is None:
